@@ -9,7 +9,7 @@ for id in "$@"; do
   [ -f $dst/patch.diff ] || { echo "$id: no patch"; continue; }
   git -C $wt checkout -q -- . ; git -C $wt clean -fdq -e target
   if ! git -C $wt apply $dst/patch.diff; then echo "$id: patch does not apply"; continue; fi
-  (cd $wt && timeout 3000 cargo nextest run --workspace --no-fail-fast --tool-config-file pb:/w/lib/nextest.toml --profile pb --offline --test-threads 8 > $dst/suite.log 2>&1)
+  (cd $wt && timeout 3000 cargo nextest run --workspace --no-fail-fast --tool-config-file pb:/w/lib/nextest.toml --profile pb --offline --test-threads ${SUITE_THREADS:-8} > $dst/suite.log 2>&1)
   grep -E "^\s+Summary" $dst/suite.log | tail -1 > $dst/suite_summary.txt
   grep -E "^\s+(FAIL|TIMEOUT|SIGKILL|SIGABRT)" $dst/suite.log | grep -v "rzmq_interop" | sort -u >> $dst/suite_summary.txt
   echo "== $id"; cat $dst/suite_summary.txt
